@@ -38,7 +38,10 @@ def native_sets():
 def allowed(natives, g):
     from qibo.transpiler.unroller import NativeGates as N
     try:
-        return bool(N.from_gate(g) & natives)
+        # a native gate is a gate of a native CLASS acting as that class's documented operator: a gate that got extra
+        # controls from the generic `controlled_by` keeps its class (Z(t).controlled_by(c0, c1) is still a `Z`) but is a
+        # multi-controlled operator no device offers under that name
+        return bool(N.from_gate(g) & natives) and not getattr(g, "is_controlled_by", False)
     except Exception:
         return False
 
